@@ -7,7 +7,7 @@ use std::sync::Arc;
 use vsched::rt;
 
 pub fn list() -> Vec<(&'static str, super::Scenario)> {
-    vec![("pipe_drop_output", pipe_drop_output), ("pipe_in_items", pipe_in_items), ("pipe_out", pipe_out), ("pipe_steal", pipe_steal), ("pipe_rewake", pipe_rewake)]
+    vec![("pipe_drop_output", pipe_drop_output), ("pipe_in_items", pipe_in_items), ("pipe_out", pipe_out), ("pipe_steal", pipe_steal), ("pipe_rewake", pipe_rewake), ("pipe_partial", pipe_partial)]
 }
 
 fn dobj(w: &World) -> (Arc<Desync<Payload>>, Arc<ObjState>) {
@@ -178,6 +178,10 @@ fn pipe_in_items(cfg: &Cfg) {
     let (obj, st) = dobj(&w);
     let pre: Vec<u32> = if pat == 0 { (1..=n).collect() } else { vec![] };
     let (stream, ctl) = scripted_stream(&pre);
+    // `late`=1: the input registers its waker on every poll (also the one that reports the end) and fires it once more, late
+    if cfg.opt("late", 0) == 1 {
+        ctl.set_eager_waker();
+    }
     let closure_drops = Arc::new(AtomicUsize::new(0));
     let dc = DropCount(closure_drops.clone());
     let st2 = st.clone();
@@ -288,6 +292,13 @@ fn pipe_in_items(cfg: &Cfg) {
         rt::violation(format!("PIPE-IN-STRONG pipe_in holds {} strong reference(s) on the Desync", Arc::strong_count(&obj) - 1));
     }
     w.check_quiet();
+    if cfg.opt("late", 0) == 1 {
+        ctl.spurious_wake();
+        rt::quiesce();
+        if ctl.polls_after_end() != 0 {
+            rt::violation(format!("PIPE-IN-LEAK the input stream was polled {} time(s) after it had ended", ctl.polls_after_end()));
+        }
+    }
     if fin == 0 {
         // the stream ended: stream and closure are released
         if ctl.stream_drops() != 1 || closure_drops.load(AO::SeqCst) != 1 {
@@ -518,6 +529,77 @@ fn pipe_rewake(cfg: &Cfg) {
         }
     }
     let expect: Vec<u32> = if what == 0 { vec![101] } else { vec![] };
+    if got != expect {
+        rt::violation(format!("PIPE-OUT-ITEMS consumer received {:?}, expected {:?} then end of stream", got, expect));
+    }
+    drop(out);
+    rt::quiesce();
+    w.check_quiet();
+    drop(obj);
+    check_no_unplanned_panics();
+    rt::quiesce();
+    shutdown();
+}
+
+/// C12 "a producer throttled by back-pressure always resumes after the consumer reads": buffer depth `d`, `d`+2 items arrive one
+/// by one (the producer ends up throttled with items left in the input), the consumer reads `r` outputs and then just waits: the
+/// producer must go on and process the next input item.  Afterwards the consumer drains the rest.
+fn pipe_partial(cfg: &Cfg) {
+    let pool = cfg.pool();
+    setup(pool);
+    let (d, r) = (cfg.get("d") as u32, cfg.opt("r", 1) as usize);
+    let w = World::new();
+    w.prelude(cfg);
+    let (obj, st) = dobj(&w);
+    let (stream, ctl) = scripted_stream(&[]);
+    let st2 = st.clone();
+    let processed = Arc::new(AtomicUsize::new(0));
+    let processed2 = processed.clone();
+    let mut out = pipe(obj.clone(), stream, move |p: &mut Payload, item: u32| {
+        p.check("pipe-item");
+        st2.enter("pipe-item");
+        vsched::thread::yield_now();
+        processed2.fetch_add(1, AO::SeqCst);
+        st2.exit();
+        futures::future::ready(item + 100).boxed()
+    });
+    out.set_backpressure_depth(d as usize);
+    let n = d + 2;
+    let ctl2 = ctl.clone();
+    let producer = spawn(move || {
+        for i in 0..n {
+            ctl2.push(i + 1);
+        }
+    });
+    join(producer, "producer");
+    rt::quiesce();
+    let before = processed.load(AO::SeqCst);
+    let prev = rt::note("in:pipe-consumer");
+    let mut got = vec![];
+    for _ in 0..r {
+        if let Some(v) = block_on(out.next()) {
+            got.push(v);
+        }
+    }
+    rt::note(&prev);
+    // the consumer now waits without polling: the producer, if it was throttled, must have been released by the read(s)
+    rt::quiesce();
+    let after = processed.load(AO::SeqCst);
+    let _ = before;
+    // the buffer holds (processed - read) items: while that is below the depth and input is waiting, the producer has to go on
+    if after < n as usize && after - got.len() < d as usize {
+        rt::violation(format!("PIPE-OUT-WAKE the producer stayed throttled after the consumer read {} output(s): {} of {} inputs processed, {} buffered (buffer depth {})", got.len(), after, n, after - got.len(), d));
+    }
+    ctl.end();
+    let prev = rt::note("in:pipe-consumer");
+    while let Some(v) = block_on(out.next()) {
+        got.push(v);
+        if got.len() > n as usize + 2 {
+            break;
+        }
+    }
+    rt::note(&prev);
+    let expect: Vec<u32> = (1..=n).map(|i| i + 100).collect();
     if got != expect {
         rt::violation(format!("PIPE-OUT-ITEMS consumer received {:?}, expected {:?} then end of stream", got, expect));
     }
